@@ -46,6 +46,17 @@ Theorem C07_accepted_eth_fee_ge_floor :
 Proof. exact accepted_eth_fee_ge_floor. Qed.
 Print Assumptions C07_accepted_eth_fee_ge_floor.
 
+(** ... where, per transaction type: *)
+Theorem C07_effective_fee_by_type :
+  forall base m,
+    eff_fee base m =
+    match m_ty m with
+    | Legacy | AccessL => m_price m * m_gas m
+    | Dynamic => Z.min (m_tip m + base) (m_price m) * m_gas m
+    end.
+Proof. exact eff_fee_by_type. Qed.
+Print Assumptions C07_effective_fee_by_type.
+
 (** No Ethereum message is accepted with a fee cap (gas price for legacy and
     access-list messages) below the current base fee. *)
 Theorem C07_accepted_eth_cap_ge_base :
